@@ -308,6 +308,10 @@ func init() {
 						if err == nil {
 							ref[mkCoord(pfx, sid, eff, key)] = append([]byte{}, val...)
 							c.Count("put:ok")
+							// the caller reuses its buffer after the write: the store must have taken the value, not the slice
+							for i := range val {
+								val[i] ^= 0x55
+							}
 						} else {
 							c.Count("put:err")
 						}
@@ -359,6 +363,12 @@ func init() {
 								c.Fail("C10", "notfound-not-recognisable", fmt.Sprintf("%s: never-written key reported as %v, not recognisable as not-found", where, err))
 							} else if pfx != 0 {
 								c.Fail("C10", "lost-write", fmt.Sprintf("%s: Get failed with %v, latest write was %q", where, err, trunc(string(exp), 30)))
+							}
+						}
+						// ... and it scribbles on what a read handed out: the next read must still see the stored value
+						if err == nil {
+							for i := range v {
+								v[i] ^= 0x55
 							}
 						}
 					case "D":
